@@ -633,6 +633,12 @@ pub(crate) async fn fashare(
     // 3 b) Pi broadcasts decommitment for macs.
     let mut dm_k = broadcast(channel, i, n, "fashare ver", &dmvec).await?;
     dm_k[i] = dmvec;
+    if dm_k
+        .iter()
+        .any(|dmv| dmv.iter().any(|dm| dm.len() != 1 + (n - 1) * 16))
+    {
+        return Err(Error::InvalidLength);
+    }
 
     // 3 c) Compute bi to determine di_bi and send to all parties.
     let mut bi = [false; RHO];
